@@ -88,22 +88,44 @@ func init() {
 			info := pkg.TypesInfo
 			fc := c.cfgOf(u, nil)
 			var obs []Obligation
-			pushes := fc.findCalls(push)
+			// the dispatch: a PushCondition call here, or a call to a private helper that makes it
+			type dispatch struct {
+				loc     Loc
+				call    *ast.CallExpr // the call in opHandlerBind
+				push    *ast.CallExpr // the PushCondition call
+				inUnit  FuncUnit      // where the PushCondition call is written
+				viaCall bool
+			}
+			var pushes []dispatch
+			for _, p := range fc.findCalls(push) {
+				pushes = append(pushes, dispatch{p.Loc, p.Call, p.Call, u, false})
+			}
+			for _, hu := range c.withHelpers(u) {
+				if hu.Obj == fn {
+					continue
+				}
+				var pc *ast.CallExpr
+				for _, ce := range callsIn(hu.Decl.Body, false) {
+					if originOf(Callee(hu.Pkg.TypesInfo, ce)) == push {
+						pc = ce
+					}
+				}
+				if pc == nil {
+					continue
+				}
+				for _, p := range fc.findCalls(hu.Obj) {
+					pushes = append(pushes, dispatch{p.Loc, p.Call, pc, hu, true})
+				}
+			}
 			if len(pushes) == 0 {
 				return []Obligation{mkOb(c, "CARVE.handler-bind", u, "dispatch", fd, Undecided, "no PushCondition call: handler dispatch changed shape", false)}
 			}
-			for _, ee := range errorEdges(fc, typeFld, lerr) {
-				errObj := ee.Obj
-				start := ee.E.B.Succs[ee.E.K]
-				reach := false
-				for _, p := range pushes {
-					if fc.reachableFromAvoiding(start, p.Loc.B, nil) {
-						reach = true
-					}
-				}
-				if !reach {
-					continue
-				}
+			goalSelected := func(v map[string]bool) bool { return v["nameEq"] || v["catchAll"] || v["h11"] || v["h10"] }
+			goalCarved := func(v map[string]bool) bool {
+				return v["nameEq"] || (v["$has:isPanic"] && !v["isPanic"]) || v["h11"] || v["h01"]
+			}
+			var mkCls func(info *types.Info, errObj types.Object, depth int) func(e ast.Expr) (string, bool)
+			mkCls = func(info *types.Info, errObj types.Object, depth int) func(e ast.Expr) (string, bool) {
 				isStrOf := func(e ast.Expr, o types.Object) bool {
 					se, ok := ast.Unparen(e).(*ast.SelectorExpr)
 					return ok && FieldOfSelector(info, se) == strFld && identObj(info, se.X) == o
@@ -115,9 +137,29 @@ func init() {
 					}
 					return identObj(info, se.X), true
 				}
-				cls := func(e ast.Expr) (string, bool) {
-					if ce, ok := ast.Unparen(e).(*ast.CallExpr); ok && originOf(Callee(info, ce)) == isPanic && len(ce.Args) == 1 && identObj(info, ce.Args[0]) == errObj {
-						return "isPanic", false
+				return func(e ast.Expr) (string, bool) {
+					if ce, ok := ast.Unparen(e).(*ast.CallExpr); ok {
+						h := originOf(Callee(info, ce))
+						if h == isPanic && len(ce.Args) == 1 && identObj(info, ce.Args[0]) == errObj {
+							return "isPanic", false
+						}
+						// a boolean helper of the package given the error: what its true result entails
+						if h != nil && h != isPanic && depth < 2 && h.Pkg() == fn.Pkg() {
+							if po := boundParam(info, ce, h, errObj); po != nil {
+								sub := func(hi *types.Info) func(e ast.Expr) (string, bool) { return mkCls(hi, po, depth+1) }
+								sel := c.helperResultEntails(h, true, sub, goalSelected)
+								car := c.helperResultEntails(h, true, sub, goalCarved)
+								switch {
+								case sel && car:
+									return "h11", false
+								case sel:
+									return "h10", false
+								case car:
+									return "h01", false
+								}
+							}
+						}
+						return "", false
 					}
 					be, ok := ast.Unparen(e).(*ast.BinaryExpr)
 					if !ok || (be.Op != token.EQL && be.Op != token.NEQ) {
@@ -143,24 +185,46 @@ func init() {
 					}
 					return "", false
 				}
-				selected := fc.edgesEntailing(cls, func(v map[string]bool) bool { return v["nameEq"] || v["catchAll"] })
-				carved := fc.edgesEntailing(cls, func(v map[string]bool) bool { return v["nameEq"] || !v["isPanic"] })
+			}
+			for _, ee := range errorEdges(fc, typeFld, lerr) {
+				errObj := ee.Obj
+				start := ee.E.B.Succs[ee.E.K]
+				reach := false
+				for _, p := range pushes {
+					if fc.reachableFromAvoiding(start, p.loc.B, nil) {
+						reach = true
+					}
+				}
+				if !reach {
+					continue
+				}
+				cls := mkCls(info, errObj, 0)
+				selected := fc.edgesEntailing(cls, goalSelected)
+				carved := fc.edgesEntailing(cls, goalCarved)
 				for _, p := range pushes {
 					construct := "dispatch PushCondition"
-					if len(selected) == 0 || fc.reachableFromAvoiding(start, p.Loc.B, selected) {
-						obs = append(obs, mkOb(c, "CARVE.handler-bind", u, construct+": name match", p.Call, Violated, "a handler can be dispatched although its specifier neither equals the condition name nor is `condition`", true))
+					if len(selected) == 0 || fc.reachableFromAvoiding(start, p.loc.B, selected) {
+						obs = append(obs, mkOb(c, "CARVE.handler-bind", u, construct+": name match", p.call, Violated, "a handler can be dispatched although its specifier neither equals the condition name nor is `condition`", true))
 					} else {
-						obs = append(obs, mkOb(c, "CARVE.handler-bind", u, construct+": name match", p.Call, Proved, "every path from the error edge to the dispatch passes an edge that entails (name equal or catch-all)", true))
+						obs = append(obs, mkOb(c, "CARVE.handler-bind", u, construct+": name match", p.call, Proved, "every path from the error edge to the dispatch passes an edge that entails (name equal or catch-all)", true))
 					}
-					if len(carved) == 0 || fc.reachableFromAvoiding(start, p.Loc.B, carved) {
-						obs = append(obs, mkOb(c, "CARVE.handler-bind", u, construct+": panic carve-out", p.Call, Violated, "the catch-all `condition` binding can be dispatched for an error recovered from a host panic", true))
+					if len(carved) == 0 || fc.reachableFromAvoiding(start, p.loc.B, carved) {
+						obs = append(obs, mkOb(c, "CARVE.handler-bind", u, construct+": panic carve-out", p.call, Violated, "the catch-all `condition` binding can be dispatched for an error recovered from a host panic", true))
 					} else {
-						obs = append(obs, mkOb(c, "CARVE.handler-bind", u, construct+": panic carve-out", p.Call, Proved, "every path from the error edge to the dispatch passes an edge that entails (name equal or not IsInternalPanic(err))", true))
+						obs = append(obs, mkOb(c, "CARVE.handler-bind", u, construct+": panic carve-out", p.call, Proved, "every path from the error edge to the dispatch passes an edge that entails (name equal or not IsInternalPanic(err))", true))
 					}
-					if len(p.Call.Args) == 1 && identObj(info, p.Call.Args[0]) == errObj {
-						obs = append(obs, mkOb(c, "CARVE.handler-bind", u, construct+": pushed value", p.Call, Proved, "the condition made available to rethrow is the error object itself", false))
+					pushedErr := false
+					if len(p.push.Args) == 1 {
+						if !p.viaCall {
+							pushedErr = identObj(info, p.push.Args[0]) == errObj
+						} else if po := boundParam(info, p.call, p.inUnit.Obj, errObj); po != nil {
+							pushedErr = identObj(p.inUnit.Pkg.TypesInfo, p.push.Args[0]) == po
+						}
+					}
+					if pushedErr {
+						obs = append(obs, mkOb(c, "CARVE.handler-bind", u, construct+": pushed value", p.call, Proved, "the condition made available to rethrow is the error object itself", false))
 					} else {
-						obs = append(obs, mkOb(c, "CARVE.handler-bind", u, construct+": pushed value", p.Call, Violated, "the value pushed for rethrow is not the error being handled", true))
+						obs = append(obs, mkOb(c, "CARVE.handler-bind", u, construct+": pushed value", p.call, Violated, "the value pushed for rethrow is not the error being handled", true))
 					}
 				}
 			}
